@@ -517,6 +517,7 @@ func RunJob(ctx context.Context, s *sut.SUT, kind string, minAge time.Duration, 
 // bound is hit). It returns false if a violation was found.
 func (r *Runner) Drain(maxRounds int) bool {
 	idle := 0
+	lastStuck := ""
 	for round := 0; round < maxRounds; round++ {
 		now := sut.Now()
 		owed := r.M.Owed(now)
@@ -566,6 +567,16 @@ func (r *Runner) Drain(maxRounds int) bool {
 			// a pull may just have retired (dead-lettered) a predecessor, or a
 			// predecessor may be within the margin of its retention end: what that
 			// unblocks is only visible to a later pull
+			// (and the count starts again whenever what holds them back has
+			// changed, e.g. the last pull retired a predecessor)
+			key := ""
+			for _, d := range stuck {
+				b, by := r.M.blocked(d, now)
+				key += fmt.Sprintf("%d:%d:%p;", d.Seq, b, by)
+			}
+			if key != lastStuck {
+				lastStuck, idle = key, 0
+			}
 			if idle++; idle < 4 {
 				if !r.Step(Op{K: OpAdvance, D: int64(3 * Eps), Note: "drain"}) {
 					return false
